@@ -9,6 +9,7 @@ import itertools
 from . import core
 
 UNK = None
+FACTS = None     # set by term_eval: lets ev_op look through promoted constants
 
 
 def ev_op(op, st):
@@ -20,6 +21,14 @@ def ev_op(op, st):
             return ("c", v["int"])
         if "str" in v:
             return ("s", v["str"])
+        if "promoted" in v and FACTS is not None:
+            pb = FACTS.body("%s::{promoted#%d}" % (v["of"], v["promoted"]))
+            if pb is not None:
+                for path, pst, kind in explore(pb, None, max_paths=4):
+                    if kind == "return":
+                        return strip_ref(pst.get(0, UNK))
+        if "unevaluated" in v:
+            return ("sym", "const " + v["unevaluated"])
         return UNK
     if op["k"] in ("copy", "move"):
         p = op["p"]
@@ -38,8 +47,8 @@ def ev_place(p, st):
         if e[0] == "deref":
             if v[0] == "ref":
                 v = v[1]
-            elif v[0] in SYMBOLIC:
-                pass  # references are transparent for symbolic terms
+            elif v[0] in SYMBOLIC or v[0] in ("s", "c"):
+                pass  # references are transparent for symbolic terms and constants (&'static str)
             else:
                 return UNK
         elif e[0] == "downcast":
@@ -71,6 +80,8 @@ def ev_rvalue(r, st):
         v = ev_op(r["o"], st)
         if v and v[0] == "c" and r["op"] == "Not":
             return ("c", 0 if v[1] else 1)
+        if v and v[0] in SYMBOLIC:
+            return ("app", ("fn", "op:" + r["op"]), (v,))
         return UNK
     if k == "binop":
         a, b = ev_op(r["a"], st), ev_op(r["b"], st)
@@ -87,6 +98,8 @@ def ev_rvalue(r, st):
                     return ("c", res)
             except Exception:
                 return UNK
+        if a and b and (a[0] in SYMBOLIC or b[0] in SYMBOLIC):
+            return ("app", ("fn", "op:" + r["op"]), (a, b))
         return UNK
     if k == "agg":
         vals = tuple(ev_op(o, st) for o in r["ops"])
@@ -101,6 +114,8 @@ def ev_rvalue(r, st):
         v = ev_place(r["p"], st)
         if v and v[0] == "adt":
             return ("c", v[2])
+        if v and v[0] in SYMBOLIC:
+            return ("app", ("fn", "discr"), (v,))
         return UNK
     if k in ("ref",):
         v = ev_place(r["p"], st)
@@ -116,7 +131,7 @@ def ev_rvalue(r, st):
 
 
 def freeze(st):
-    return tuple(sorted((k, repr(v)) for k, v in st.items() if v is not UNK))
+    return tuple(sorted((str(k), repr(v)) for k, v in st.items() if v is not UNK))
 
 
 def explore(body, call_hook=None, start=0, state=None, max_paths=20000, max_visits=3,
@@ -210,14 +225,18 @@ def explore(body, call_hook=None, start=0, state=None, max_paths=20000, max_visi
                     succ.append((t["otherwise"], None))
                 # refine: when switching on a bare bool/int local, record the value on each edge
                 ol = core.op_local(t["o"])
+                pc = st.get("__pc", ())
+                known = [vv for _, vv in succ if vv is not None]
                 for x, val in succ[1:]:
                     st2 = dict(st)
+                    st2["__pc"] = pc + ((b, v, val if val is not None else ("not", tuple(known))),)
                     if ol is not None and val is not None:
                         st2[ol] = ("c", val)
                     npaths += 1
                     if npaths < max_paths:
                         stack.append((x, st2, path, visits))
                 x, val = succ[0]
+                st["__pc"] = pc + ((b, v, val if val is not None else ("not", tuple(known))),)
                 if ol is not None and val is not None:
                     st[ol] = ("c", val)
                 b = x
@@ -276,6 +295,14 @@ def truth_table(body, atoms):
     return table
 
 
+class Ret(tuple):
+    """(value, path) with the path condition attached as .pc = ((block, operand_term, value)...)"""
+    def __new__(cls, v, path, pc):
+        o = tuple.__new__(cls, (v, path))
+        o.pc = pc
+        return o
+
+
 def strip_ref(v):
     while v and v[0] == "ref":
         v = v[1]
@@ -287,6 +314,8 @@ def term_eval(facts, body, args=None, inline=lambda path: True, depth=0, max_pat
     (return_value_term, path_blocks) for every abstract return path.  Calls of closures / local
     functions accepted by `inline` are evaluated recursively (must have a single return path,
     otherwise the result is an opaque application term)."""
+    global FACTS
+    FACTS = facts
     st0 = {}
     for i in range(1, body.argc + 1):
         st0[i] = args[i - 1] if args else ("sym", "arg%d" % i)
@@ -325,7 +354,7 @@ def term_eval(facts, body, args=None, inline=lambda path: True, depth=0, max_pat
     res = []
     for path, st, kind in explore(body, hook, state=st0, max_paths=max_paths):
         if kind == "return":
-            res.append((st.get(0, UNK), path))
+            res.append(Ret(st.get(0, UNK), path, st.get("__pc", ())))
     return res
 
 
